@@ -10,15 +10,18 @@ class Prop:
             'vessels and 11 message types with default timestamps under a controlled clock, TTL changes and exact '
             'age = TTL ties; callbacks registered for all three events; after every operation the implementation is '
             'compared with the Lean model (state in dict order, verdict, events) and with an independent abstract '
-            'tracker written from the property text; non-trivial = at least one accepted update ; realistic epochs and mixed time-stamp magnitudes; histories counted in quarter seconds (sub-second stamps); directed expiry histories (vessels inserted out of time order, one disturbance, then the clock at every TTL boundary +-1); get_track; MMSI given as int and str; a one-for-all observer and an observer that unsubscribes / subscribes (twice) during the history, its calls compared with the model of the event broker')
+            'tracker written from the property text; non-trivial = at least one accepted update ; realistic epochs and mixed time-stamp magnitudes; histories counted in quarter seconds (sub-second stamps); directed expiry histories (vessels inserted out of time order, one disturbance, then the clock at every TTL boundary +-1); get_track; MMSI given as int and str; a one-for-all observer and an observer that unsubscribes / subscribes (twice) during the history, its calls compared with the model of the event broker; histories with a subscriber that acts on the tracker or raises from inside its callback (implementation only): n_latest_tracks against the tracks shown, after every operation; copies of the tracker')
     assumptions = ['times are integers or multiples of 1/4 s (exact in IEEE arithmetic); sub-ulp rounding differences between '
                    '(t - ttl) < oldest and (t - lu) < ttl are not exhibitable by the model',
                    'the order of DELETED events within one cleanup is unspecified (Python set) and canonicalised']
 
     def run(self, ctx):
         tracker_cases.run_tracker_checks(ctx, 'C14')
+        tracker_cases.run_reentrant_checks(ctx, 'C14')
 
     def replay(self, ctx, payload):
+        if 'reentrant_op' in payload['failure']['input']:
+            return tracker_cases.replay_reentrant(ctx, 'C14', payload)
         return tracker_cases.replay_history(ctx, 'C14', payload)
 
 
